@@ -370,3 +370,23 @@ Proof. induction ops as [|l ops IH]; intros s Hwf Hall rest.
       unfold acquire in Ea. destruct (maxc <=? get (cs s) t); [|discriminate].
       rewrite R. auto.
 Qed.
+
+(* a request weighed 0 (an extractor may say so): rejected exactly when its source is at the limit, and when admitted it
+   changes nothing for anybody (its Finish gives back the same nothing) *)
+Lemma zero_weight_request maxc s t : wfmap (cs s) ->
+  match acquire maxc s t 0 with
+  | None => maxc <= get (cs s) t
+  | Some s' => get (cs s) t < maxc /\ (forall k, get (cs s') k = get (cs s) k) /\ total s' = total s /\
+               (forall k, get (cs (release s' t 0)) k = get (cs s) k)
+  end.
+Proof. intros Hwf. unfold acquire. destruct (Z.leb_spec maxc (get (cs s) t)) as [H|H]; [exact H|].
+  cbn [cs total]. split; [exact H|].
+  assert (G : forall k, get (set (cs s) t (get (cs s) t + 0)) k = get (cs s) k).
+  { intros k. destruct (Z.eq_dec t k) as [->|Hne].
+    - rewrite get_set_same by exact (proj1 Hwf). lia.
+    - rewrite get_set_other by exact Hne. reflexivity. }
+  split; [exact G|]. split; [lia|].
+  intros k. unfold release. cbn [cs]. destruct (Z.eq_dec t k) as [->|Hne].
+  - rewrite get_set_same by (apply wfmap_set, Hwf). rewrite G. lia.
+  - rewrite get_set_other by exact Hne. apply G.
+Qed.
